@@ -216,8 +216,8 @@ Json plan_to_json(const Plan &p) {
     for (const FileSpec &f : p.world.files) {
       Json fo = Json::Obj();
       fo.set("path", f.path);
-      static const char *kn[] = {"regular", "no_permission", "directory"};
-      fo.set("kind", kn[f.kind % 3]);
+      static const char *kn[] = {"regular", "no_permission", "directory", "symlink"};  // symlink: data is the target's path
+      fo.set("kind", kn[f.kind % 4]);
       fo.set("data", f.data);
       fa.push(fo);
     }
@@ -284,7 +284,7 @@ bool plan_from_json(const Json &j, Plan &p, std::string *err) {
         FileSpec f;
         f.path = fo.str("path");
         std::string k = fo.str("kind", "regular");
-        f.kind = k == "no_permission" ? 1 : k == "directory" ? 2 : 0;
+        f.kind = k == "no_permission" ? 1 : k == "directory" ? 2 : k == "symlink" ? 3 : 0;
         f.data = fo.str("data");
         p.world.files.push_back(f);
       }
